@@ -99,6 +99,7 @@ Proof.
     store_simpl; try reflexivity.
   - destruct (osourced o); cbn [fst snd]; store_simpl; rewrite ?E; reflexivity.
   - rewrite E. cbn [fst snd]. destruct root; cbn [fst snd]; rewrite ?E; reflexivity.
+  - destruct root; cbn [fst snd]; rewrite ?E; reflexivity.
 Qed.
 
 Lemma push_one_spec o s lg :
